@@ -440,6 +440,9 @@ pub enum AuxOp {
     Close { code: u32, reason_len: u8 },
     /// local_address_changed notification (client)
     LocalAddrChanged,
+    /// Reset the n-th (cyclically) locally initiated stream that is still being written, if there is
+    /// one (C17: resets at arbitrary instants of the early phase)
+    ResetOpen { nth: u8, code: u32 },
 }
 
 #[derive(Clone, Debug, Serialize, Deserialize, PartialEq)]
